@@ -431,7 +431,13 @@ class Response(_SansIOResponse):
         """
         # Always freeze the encoded response body, ignore
         # implicit_sequence_conversion and direct_passthrough.
+        close = getattr(self.response, "close", None)
         self.response = list(self.iter_encoded())
+
+        # The buffered iterable is dropped, still close it with the response.
+        if close is not None:
+            self.call_on_close(close)
+
         self.headers["Content-Length"] = str(sum(map(len, self.response)))
         self.add_etag()
 
